@@ -68,7 +68,9 @@ def check_sites(ctx):
             raise AnalysisError('%s: Parallel(..) argument is not a single generator' % f.where)
         comp = gen.generators[0]
         elt = gen.elt
-        if not (isinstance(elt, ast.Call) and isinstance(elt.func, ast.Call) and call_name(elt.func) == 'delayed'):
+        is_delayed = isinstance(elt, ast.Call) and ((isinstance(elt.func, ast.Call) and call_name(elt.func) == 'delayed') or
+                                                    (isinstance(elt.func, ast.Name) and repo._delayed_alias(f, elt.func.id) is not None))
+        if not is_delayed:
             raise AnalysisError('%s: generator element is not delayed(W)(args)' % f.where)
         pstmt = view.stmt_of(pcall)
         pres = repo.resolve_call(f, elt)
@@ -263,13 +265,32 @@ def check_split_table(ctx):
     lp = loops[0]
     host = getattr(lp, '_host', lp)
     it = view.expand(lp.iter, host)
+    zip_pair = None
+    if isinstance(lp.iter, ast.Call) and call_name(lp.iter) == 'zip' and len(lp.iter.args) == 2 and isinstance(lp.target, ast.Tuple) \
+            and len(lp.target.elts) == 2 and all(isinstance(x, ast.Name) for x in lp.target.elts):
+        a0, a1 = lp.iter.args
+        # for start, end in zip(B, B[1:]):  start = B[i], end = B[i+1], i in range(len(B) - 1)
+        if isinstance(a0, ast.Name) and isinstance(a1, ast.Subscript) and isinstance(a1.value, ast.Name) and a1.value.id == a0.id \
+                and isinstance(a1.slice, ast.Slice) and isinstance(a1.slice.lower, ast.Constant) and a1.slice.lower.value == 1 \
+                and a1.slice.upper is None:
+            ds = view.reaching(a0.id, host)
+            if len(ds) == 1 and isinstance(ds[0].value, ast.ListComp) and len(ds[0].value.generators) == 1:
+                g0 = ds[0].value.generators[0]
+                if isinstance(g0.iter, ast.Call) and call_name(g0.iter) in ('range', 'xrange') and len(g0.iter.args) == 1:
+                    zip_pair = (lp.target.elts[0].id, lp.target.elts[1].id, a0.id)
+                    # the pairs run over range(K - 1) where K is the length of the boundary list
+                    it = parse_expr('xrange(%s - 1)' % U(g0.iter.args[0]))
+                    try:
+                        it = parse_expr('xrange(%s)' % n_p) if Norm().visit(g0.iter.args[0]) == Norm().visit(parse_expr('%s + 1' % n_p)) else it
+                    except Unsupported:
+                        pass
     rng_ok = isinstance(it, ast.Call) and call_name(it) in ('range', 'xrange') and len(it.args) == 1 \
-        and U(it.args[0]) == n_p and isinstance(lp.target, ast.Name)
+        and U(it.args[0]) == n_p and (isinstance(lp.target, ast.Name) or zip_pair is not None)
     ctx.check('R-SPLIT/partition-range', f, 'loop', rng_ok,
               'split loop does not range over range(%s): `%s`' % (n_p, U(lp.iter)), lp, sample=U(lp.iter))
     if not rng_ok:
         return
-    i = lp.target.id
+    i = lp.target.id if zip_pair is None else '__i__'
     slices = []
     for n in ast.walk(comp_form if comp_form is not None else lp):
         if isinstance(n, ast.Subscript) and isinstance(n.slice, ast.Slice) and isinstance(n.value, ast.Name) \
@@ -281,6 +302,10 @@ def check_split_table(ctx):
     st = view.stmt_of(sl) if comp_form is None else host
     lo = view.expand(sl.slice.lower, st, keep=(i,)) if sl.slice.lower is not None else ast.Constant(0)
     hi = view.expand(sl.slice.upper, st, keep=(i,)) if sl.slice.upper is not None else parse_expr('len(%s)' % table_p)
+    if zip_pair is not None:
+        sname, ename, bname = zip_pair
+        lo = subst_names(lo, {sname: parse_expr('%s[%s]' % (bname, i))})
+        hi = subst_names(hi, {ename: parse_expr('%s[%s + 1]' % (bname, i))})
     lo, hi = _through_boundary_list(view, lo, st, n_p), _through_boundary_list(view, hi, st, n_p)
     if lo is None or hi is None:
         ctx.check('R-SPLIT/partition-contiguous', f, 'boundaries', False,
